@@ -328,11 +328,84 @@ RULE = (
 )
 
 
+def giveup_case(case):
+    """injected fault: z3 is made to give up (global timeout of 1 ms, resource limit of 50 units) on a
+    program that is satisfiable by construction (a Latin square with givens and 2x2 sums read off a planted
+    grid).  find_answer may then fail loudly or still find a model; it must never report `no answer`."""
+    import z3
+    from cspuz import Solver
+    from cspuz.constraints import alldifferent
+
+    n, g = case["n"], case["grid"]
+    s = Solver()
+    x = s.int_array((n, n), 1, n)
+    for i in range(n):
+        s.ensure(alldifferent(x[i, :]))
+        s.ensure(alldifferent(x[:, i]))
+    for (i, j) in case["given"]:
+        s.ensure(x[i, j] == g[i][j])
+    for (i, j) in case["cages"]:
+        s.ensure(x[i, j] + x[i + 1, j] + x[i, j + 1] + x[i + 1, j + 1] == g[i][j] + g[i + 1][j] + g[i][j + 1] + g[i + 1][j + 1])
+    z3.set_param("timeout", 1)
+    z3.set_param("rlimit", 50)
+    try:
+        try:
+            res = s.find_answer(backend="z3")
+        except Exception as e:
+            return "raises:" + type(e).__name__
+    finally:
+        z3.set_param("timeout", 4294967295)
+        z3.set_param("rlimit", 0)
+    if res is False:
+        raise Failure("said-unsat-on-planted-sat|solver-gave-up", observed=False,
+                      expected="True with a model, or an exception: the program has a model")
+    if res is not True:
+        raise Failure("find_answer-not-bool", observed=repr(res))
+    a = [[x[i, j].sol for j in range(n)] for i in range(n)]
+    full = list(range(1, n + 1))
+    ok = all(sorted(r) == full for r in a) and all(sorted(a[i][j] for i in range(n)) == full for j in range(n)) and \
+        all(a[i][j] == g[i][j] for (i, j) in case["given"]) and \
+        all(a[i][j] + a[i + 1][j] + a[i][j + 1] + a[i + 1][j + 1] ==
+            g[i][j] + g[i + 1][j] + g[i][j + 1] + g[i + 1][j + 1] for (i, j) in case["cages"])
+    if not ok:
+        raise Failure("model-violates-constraint|solver-gave-up", observed=a)
+    return "model"
+
+
+def shard_giveup(arg):
+    from hypothesis import strategies as st
+
+    seed, n_cases = arg
+    stats = Stats()
+
+    @st.composite
+    def c(draw):
+        n = draw(st.integers(6, 8))
+        rows = draw(st.permutations(list(range(n))))
+        cols = draw(st.permutations(list(range(n))))
+        sym = draw(st.permutations(list(range(1, n + 1))))
+        g = [[sym[(rows[i] + cols[j]) % n] for j in range(n)] for i in range(n)]
+        cells = [(i, j) for i in range(n) for j in range(n)]
+        given = [list(c_) for c_ in cells if draw(st.integers(0, 9)) == 0]
+        cages = [list(c_) for c_ in cells if c_[0] + 1 < n and c_[1] + 1 < n and draw(st.integers(0, 3)) == 0]
+        return dict(n=n, grid=g, given=given, cages=cages)
+
+    def b(case):
+        out = giveup_case(case)
+        stats.case(canon=case, nontrivial=out.startswith("raises"),
+                   classes=["solver-gave-up", "solver-gave-up:" + out], sample=None)
+
+    hyp_search(stats, c(), b, seed=seed, max_examples=n_cases, check="c01.giveup", rounds=2, shrink=False,
+               round_floor=4)
+    return stats
+
+
 def run(ctx):
     ctx.rule = RULE
     ctx.assumptions = [
         "only well-typed trees built through the public DSL are posted; 1-ary SUB is never generated",
-        "z3 'unknown' cannot occur on these linear programs",
+        "z3 'unknown' cannot occur on these linear programs; it is provoked deliberately in the give-up family "
+        "(global z3 timeout of 1 ms), where an exception is accepted and `False` is not",
         "planted-UNSAT relies on vlib.gen_expr.negate being a correct negation (self-tested by C12/C01 enum class)",
     ]
     if ctx.quick():
@@ -343,7 +416,10 @@ def run(ctx):
                   for i in range(16)]
     for r in pmap(shard, shards):
         ctx.stats.merge(r)
+    for r in pmap(shard_giveup, [(ctx.seed * 1000 + 600 + i, 10 if ctx.quick() else 120) for i in range(4)]):
+        ctx.stats.merge(r)
     cl = ctx.stats.classes
+    ctx.floor("planted programs on which z3 was made to give up", cl["solver-gave-up"], 30)
     enum_n = max(1, cl["enum:sat"] + cl["enum:unsat"])
     ctx.floor("UNSAT share among enumerable programs", round(cl["enum:unsat"] / enum_n, 3), 0.15)
     ctx.floor("programs with a constant-only or empty aggregate",
@@ -357,4 +433,7 @@ def run(ctx):
 
 
 def replay(ctx, rep):
+    if rep.get("check") == "c01.giveup":
+        giveup_case(rep["case"])
+        return
     run_program(rep["case"])
